@@ -523,6 +523,14 @@ async fn task_body(idx: usize, t: TaskSpec) -> (String, String) {
 
 /// run one scenario on runtime `R`; returns the findings (empty = held)
 pub fn run_scenario<R: Rt>(sc: &Scenario) -> Vec<Finding> {
+    run_scenario_mode::<R>(sc, false)
+}
+
+/// `independent = true`: wherever the scenario would hand out a *clone* (or an `Arc` share) of a
+/// statement, hand out an independently built copy of the same lineage instead. A failure that
+/// disappears then needs structure shared between a clone and its source — the subject of the
+/// value-operation property, not of thread-safety.
+pub fn run_scenario_mode<R: Rt>(sc: &Scenario, independent: bool) -> Vec<Finding> {
     let mut findings = Vec::new();
     match sc {
         Scenario::S1 { base, stages, obs } => {
@@ -590,9 +598,13 @@ pub fn run_scenario<R: Rt>(sc: &Scenario) -> Vec<Finding> {
             joins.push(actor::<R, Out>(move || {
                 let a = Arc::new(live_build(&base0));
                 for tx in &txs {
-                    tx(a.clone());
+                    if independent {
+                        tx(Arc::new(live_build(&base0)));
+                    } else {
+                        tx(a.clone());
+                    }
                 }
-                let mut c = (*a).clone();
+                let mut c = if independent { live_build(&base0) } else { (*a).clone() };
                 drop(a);
                 live_apply(&mut c, &ops);
                 vec![("clone".to_string(), obs_str(&c, &cobs))]
@@ -639,7 +651,11 @@ pub fn run_scenario<R: Rt>(sc: &Scenario) -> Vec<Finding> {
             joins.push(actor::<R, Out>(move || {
                 let s = live_build(&base0);
                 for tx in &txs {
-                    tx(s.clone());
+                    if independent {
+                        tx(live_build(&base0));
+                    } else {
+                        tx(s.clone());
+                    }
                 }
                 let r = obs_str(&s, &oobs);
                 drop(s);
